@@ -38,7 +38,8 @@ typedef struct OptSasl2Feature { bool has; Sasl2StreamFeature v; } OptSasl2Featu
 static inline const Sasl2StreamFeature *OptSasl2Feature_value(const OptSasl2Feature *o) { MODEL_LIMIT(o->has, "std::optional::value() on an empty optional (throws)"); return &o->v; }
 typedef struct OptNonza { bool has; } OptNonza;                                          /* std::optional<empty nonza struct> */
 typedef struct ConnectionError { int value; } ConnectionError;                           /* std::variant<SocketError, TimeoutError, StreamError, ...>: the value it was built from */
-typedef struct OptBind2Bound { bool has; } OptBind2Bound;                                /* std::optional<Bind2Bound>: only has_value()/reset() are used */
+typedef struct Bind2Bound { int opaque; } Bind2Bound;                                    /* Bind2Bound: handed to C2sStreamManager::onBind2Bound, not looked into */
+typedef struct OptBind2Bound { bool has; Bind2Bound v; } OptBind2Bound;                   /* std::optional<Bind2Bound> */
 
 /* std::vector<ServerAddress> (A-STD-VECTOR): n elements; element i is a function of (vector value, i); at(i) throws for i >= n */
 typedef struct AddrVec { size_t n; int id; } AddrVec;
